@@ -17,7 +17,7 @@ mkdir -p "$CACHE"
 hash_inputs() {
   ( cd "$REPO" && find . -name '*.go' -not -name '*_test.go' -not -path './examples/*' -not -path './test/*' -not -path './.git/*' -print0 | sort -z | xargs -0 sha256sum
     cd "$REPO" && sha256sum go.mod go.sum
-    cd "$VERIF" && find rt harness tools \( -name '*.go' -o -name 'go.mod' \) -print0 | sort -z | xargs -0 sha256sum
+    cd "$VERIF" && find rt harness tools crosscheck \( -name '*.go' -o -name 'go.mod' \) -print0 | sort -z | xargs -0 sha256sum
     echo "$REPO"; go version ) | sha256sum | cut -c1-20
 }
 
@@ -43,6 +43,10 @@ build() {
   cp "$REPO/go.sum" "$DIR/go.sum"
   FLAGS=""; [ $RACE = 1 ] && FLAGS="-race"
   (cd "$VERIF/harness" && go build $FLAGS -modfile="$DIR/go.mod" -overlay "$DIR/overlay.json" -o "$BIN" .) > "$DIR/build.log" 2>&1 || { cat "$DIR/build.log"; echo "INFRA: harness build failed"; exit 2; }
+  # the cross-check of the fake transport runs against the UNINSTRUMENTED library (no overlay)
+  sed "s|=> /repo|=> $REPO|" "$VERIF/crosscheck/go.mod" > "$DIR/crosscheck.mod"
+  cp "$REPO/go.sum" "$DIR/crosscheck.sum"
+  (cd "$VERIF/crosscheck" && go build -modfile="$DIR/crosscheck.mod" -o "$DIR/crosscheck" .) >> "$DIR/build.log" 2>&1 || { cat "$DIR/build.log"; echo "INFRA: crosscheck build failed"; exit 2; }
   # keep the cache small: newest 8 build directories (never one used in the last 15 minutes)
   for d in $(ls -1dt "$CACHE"/*/ 2>/dev/null | tail -n +9); do
     [ -n "$(find "$d" -maxdepth 0 -mmin +15)" ] && rm -rf "$d"
@@ -64,5 +68,5 @@ case "$PROP" in
       rm -f "$DIR"/racelog-parent.*
       exit $rc
     fi
-    VERIF_DIR="$VERIF" exec "$BIN" check "$PROP" --tier "$TIER";;
+    VERIF_CROSSCHECK="$DIR/crosscheck" VERIF_DIR="$VERIF" exec "$BIN" check "$PROP" --tier "$TIER";;
 esac
